@@ -502,13 +502,29 @@ class StrongClient(Client):
         self.eng = None
 
     def is_event(self, n):
-        return n.get('k') in ('call', 'construct', 'new', 'throw')
+        return n.get('k') in ('call', 'construct', 'new', 'throw', 'bin', 'un')
+
+    @staticmethod
+    def _bookkeeping(n):
+        n = A.strip(n)
+        return isinstance(n, dict) and n.get('k') == 'mem' and n.get('field') and n.get('name') in ('_capa', '_size', '_storage') and \
+            A.root(n.get('base'))[0] == 'this'
 
     def event(self, n, s):
+        if n.get('k') in ('bin', 'un'):
+            tgt = n.get('lhs') if n.get('k') == 'bin' else n.get('sub')
+            is_store = (n.get('k') == 'bin' and n.get('op', '').endswith('=') and n.get('op') not in ('==', '!=', '<=', '>=')) or \
+                (n.get('k') == 'un' and n.get('op') in ('++', '--'))
+            if is_store and self._bookkeeping(tgt):
+                return [('n', s | {'dirty'})]
+            return [('n', s)]
         kind, det = R.role(n)
         may = self.may(n) and kind != 'destroy'
         out = []
         protected = bool(self.eng.try_stack)
+        # a size / capacity / storage word handed to a callee by non-const reference (exchange, swap) is written
+        if n.get('k') == 'call' and A.cshort(n) in ('exchange', 'swap', 'swap_sizetype') and any(self._bookkeeping(a) for a in n.get('args', []) or []):
+            s = s | {'dirty'}
         if may:
             if 'dirty' in s and not protected:
                 self.report(n, 'may throw after live elements / the size were already modified')
@@ -571,11 +587,71 @@ class AliasClient(Client):
         self.ref_locals = ref_locals   # did -> init node for locals of reference type
         self.report = report
         self.derived = {}              # did -> True if the local reference is derived from a tracked param
+        self.derived_ptr = {}          # did -> True for pointer locals holding the address of a tracked reference
+        self.deref_ids = set()         # ids of ref nodes (of pointer locals) that are dereferenced
+        self.shifts = {}               # id(call) -> shift_right call node
 
     def is_event(self, n):
-        return n.get('k') in ('call', 'new', 'ref', 'construct') or (n.get('k') == 'decl_var')
+        return n.get('k') in ('call', 'new', 'ref', 'construct', 'bin', 'un') or (n.get('k') == 'decl_var')
+
+    # ---- the pointer re-basing idiom:  if (first <= p && p < first + n) p += count;   after shift_right(first, n[, count])
+    def _shift(self, s):
+        for x in s:
+            if x[0] == 'shift':
+                return self.shifts.get(x[1])
+        return None
+
+    def _ptr(self, n):
+        n = A.strip(n)
+        if isinstance(n, dict) and n.get('k') == 'ref' and n.get('dk') == 'local' and self.derived_ptr.get(n.get('did')):
+            return n['did']
+        return None
+
+    def _bound_facts(self, cond, s):
+        """(did, fact if true, fact if false) with facts in {'lb', 'ub', 'out', None}."""
+        sh = self._shift(s)
+        c = A.strip(cond)
+        if sh is None or not isinstance(c, dict) or c.get('k') != 'bin' or c.get('op') not in ('<', '<=', '>', '>='):
+            return None
+        first = sh['args'][0]
+        nn = sh['args'][1] if len(sh['args']) > 1 else None
+        l, r, op = c['lhs'], c['rhs'], c['op']
+        if op in ('>', '>='):
+            l, r = r, l
+            op = '<' if op == '>' else '<='
+        # now:  l op r  with op in (<, <=)
+
+        def is_first(x):
+            return A.struct_eq(A.strip(x), A.strip(first))
+
+        def is_upper(x):
+            x = A.strip(x)
+            if isinstance(x, dict) and x.get('k') == 'call' and A.cshort(x) in ('end', 'cend') and (x.get('obj') is None or A.root(x['obj'])[0] == 'this'):
+                return True
+            if isinstance(x, dict) and x.get('k') == 'bin' and x.get('op') == '+' and nn is not None:
+                return (is_first(x['lhs']) and A.struct_eq(A.strip(x['rhs']), A.strip(nn))) or (is_first(x['rhs']) and A.struct_eq(A.strip(x['lhs']), A.strip(nn)))
+            return False
+        pl, pr = self._ptr(l), self._ptr(r)
+        if pr is not None and is_first(l) and op == '<=':
+            return pr, 'lb', 'out'          # first <= p
+        if pl is not None and is_first(r) and op == '<':
+            return pl, 'out', 'lb'          # p < first
+        if pl is not None and is_upper(r) and op == '<':
+            return pl, 'ub', 'out'          # p < first + n
+        if pr is not None and is_upper(l) and op == '<=':
+            return pr, 'out', 'ub'          # first + n <= p
+        return None
 
     def assume(self, cond, truth, s):
+        bf = self._bound_facts(cond, s)
+        if bf is not None:
+            did, ft, ff = bf
+            fact = ft if truth else ff
+            if fact == 'out':
+                # the pointer does not designate a shifted element: it is still valid
+                return frozenset(x for x in s if x != ('l', did) and not (x[0] in ('lb', 'ub') and x[1] == did))
+            if fact in ('lb', 'ub'):
+                return s | {(fact, did)}
         # `idx != -1` false (or `idx == -1` true), where idx = (&v in [begin, begin+size)) ? &v - begin : -1, means v is not an
         # element of this vector: a reallocation did not move it
         c = A.strip(cond)
@@ -598,10 +674,26 @@ class AliasClient(Client):
             return ('p', n['idx'])
         if n.get('dk') == 'local' and self.derived.get(n.get('did')):
             return ('l', n['did'])
+        if n.get('dk') == 'local' and self.derived_ptr.get(n.get('did')) and id(n) in self.deref_ids:
+            return ('l', n['did'])      # only a dereference reads the element; comparing / adjusting the pointer does not
         return None
 
     def event(self, n, s):
         k = n.get('k')
+        if k in ('bin', 'un'):
+            # p += count / ++p on a pointer known to designate a shifted element re-bases it
+            tgt = n.get('lhs') if k == 'bin' else n.get('sub')
+            did = self._ptr(tgt)
+            if did is not None and ('lb', did) in s and ('ub', did) in s:
+                sh = self._shift(s)
+                by = n.get('rhs') if (k == 'bin' and n.get('op') == '+=') else None
+                cnt = sh['args'][2] if sh is not None and len(sh.get('args', [])) > 2 else None
+                ok = (k == 'un' and n.get('op') == '++' and cnt is None) or \
+                    (by is not None and cnt is not None and A.struct_eq(A.strip(by), A.strip(cnt))) or \
+                    (by is not None and cnt is None and (A.strip(by).get('v') == 1 or A.strip(by).get('cv') == 1))
+                if ok:
+                    return [('n', frozenset(x for x in s if x != ('l', did) and not (x[0] in ('lb', 'ub') and x[1] == did)))]
+            return [('n', s)]
         if k == 'ref':
             t = self._tracked(n)
             if t is not None and t in s:
@@ -615,11 +707,15 @@ class AliasClient(Client):
         if kind == 'check' and det in ('adjustCapacity', 'reserve'):
             # may reallocate: the original references are dead afterwards; a reference *returned* by the re-basing
             # overloads is fresh (REBASE checks that overload)
-            allv = {('p', i) for i in self.tp} | {('l', d) for d, v in self.derived.items() if v}
+            allv = {('p', i) for i in self.tp} | {('l', d) for d, v in self.derived.items() if v} | {('l', d) for d, v in self.derived_ptr.items() if v}
             return [('n', frozenset(s | allv) - frozenset({('fresh', id(n))}))]
         if moving:
-            allv = {('p', i) for i in self.tp} | {('l', d) for d, v in self.derived.items() if v}
-            return [('n', frozenset(s | allv))]
+            allv = {('p', i) for i in self.tp} | {('l', d) for d, v in self.derived.items() if v} | {('l', d) for d, v in self.derived_ptr.items() if v}
+            ns = frozenset(x for x in s if x[0] not in ('shift', 'lb', 'ub')) | allv
+            if kind == 'hole_open' and n.get('args'):
+                self.shifts[id(n)] = n
+                ns = ns | {('shift', id(n))}
+            return [('n', frozenset(ns))]
         return [('n', s)]
 
 
@@ -662,6 +758,29 @@ def alias(progs):
                             uses = [x for x in walk(v['init']) if x.get('k') == 'ref' and x.get('dk') == 'param' and x.get('idx') in tracked]
                             if uses:
                                 cl.derived[v['did']] = True
+            # pointer locals holding the address of a tracked reference (std::addressof(v) / &v) ...
+            for n in walk(body):
+                if n.get('k') == 'decl':
+                    for v in n.get('vars', []):
+                        if v.get('t', '').rstrip().endswith('*') and v.get('init') is not None and v['did'] not in nei:
+                            for x in walk(v['init']):
+                                addr = (x.get('k') == 'call' and A.cshort(x) in ('addressof', '__addressof') and x.get('args')) or (x.get('k') == 'un' and x.get('op') == '&')
+                                if addr:
+                                    tgt = A.strip(x['args'][0] if x.get('k') == 'call' else x.get('sub'))
+                                    if isinstance(tgt, dict) and tgt.get('k') == 'ref' and ((tgt.get('dk') == 'param' and tgt.get('idx') in tracked) or
+                                                                                        (tgt.get('dk') == 'local' and cl.derived.get(tgt.get('did')))):
+                                        cl.derived_ptr[v['did']] = True
+            # ... and the places where they are dereferenced (only a dereference reads the element)
+            if cl.derived_ptr:
+                P = A.Parents(body)
+                for n in walk(body):
+                    if n.get('k') == 'ref' and n.get('dk') == 'local' and cl.derived_ptr.get(n.get('did')):
+                        par, slot = P.parent(n)
+                        while par is not None and par.get('k') == 'cast':
+                            par, slot = P.parent(par)
+                        if par is not None and ((par.get('k') == 'un' and par.get('op') == '*') or (par.get('k') == 'mem' and par.get('arrow')) or
+                                                (par.get('k') == 'idx' and slot == 'base')):
+                            cl.deref_ids.add(id(n))
             res = {}
 
             def report(n, t, res=res):
